@@ -527,7 +527,13 @@ structure AState where
   ins : NMap := []
   outs : NMap := []
   clos : NMap := []             -- CLOSURE_TYPES per def node id (present = annotation exists)
+  annos : List (Nat × TySet) := []   -- `TYPES` annotations written so far: a visit overwrites the ids it annotates and
+                                     -- leaves every other annotation in place (also those of earlier, smaller states)
   deriving Repr, Inhabited
+
+/-- `anno.setanno(node, TYPES, …)`: replace the annotation of that id. -/
+def setAnnos (old : List (Nat × TySet)) (new : List (Nat × TySet)) : List (Nat × TySet) :=
+  new.foldl (fun acc p => p :: acc.filter (fun q => q.1 != p.1)) old
 
 /-- `context_types`: the closure types of names the function does not bind; `None` when empty. -/
 def contextTypes (env : FnEnv) : TMap := env.closure.filter fun p => !env.bound.contains p.1
@@ -551,7 +557,8 @@ def visitNode (R : Resolver) (env : FnEnv) (G : Graph) (st : AState) (n : GNode)
   let prev := st.outs.get n.id
   let tin := nodeIn G env st.outs n.id
   let tout := (transfer R env n.node tin).norm
-  ({ ins := st.ins.set n.id tin, outs := st.outs.set n.id tout, clos := updClos st.clos n tout },
+  ({ ins := st.ins.set n.id tin, outs := st.outs.set n.id tout, clos := updClos st.clos n tout,
+     annos := setAnnos st.annos (annN R env tin n.node) },
    !(TMap.eqB prev tout))
 
 /-- `GraphVisitor._visit_internal(FORWARD)`; `fuel` bounds the number of node visits
